@@ -73,6 +73,10 @@ pub struct SysPt {
     pub tol: f64,
     pub h: f64,
     pub cap: usize,
+    /// start r + rho (cos phi, sin phi, 0, ..) in the plane of the first two coordinates (dimension >= 2): a polar
+    /// lattice of starts, so that steps along, across and at every angle to the iterate occur
+    #[serde(default)]
+    pub polar: Option<(f64, f64)>,
 }
 fn root_vec(which: usize, d: usize) -> Vec<f64> {
     (0..d)
@@ -111,6 +115,10 @@ where
         SMatrix::<f64, S, S>::from_fn(|i, j| a[i][j] + if i == j { p.c * nl(p.nonlin, u[i]).1 } else { 0.0 })
     };
     let start: Vec<f64> = match p.start_dir {
+        _ if p.polar.is_some() => {
+            let (rho, phi) = p.polar.unwrap();
+            (0..S).map(|i| r[i] + if i == 0 { rho * phi.to_radians().cos() } else if i == 1 { rho * phi.to_radians().sin() } else { 0.0 }).collect()
+        }
         None => vec![0.0; S],
         Some(dir) => (0..S).map(|i| r[i] + p.dist * if dir == S { 1.0 / (S as f64).sqrt() } else if dir == i { 1.0 } else { 0.0 }).collect(),
     };
@@ -131,7 +139,7 @@ impl Check for Systems {
         "systems"
     }
     fn rule(&self) -> String {
-        "newton and secant on F(x) = A(x-r) + c N(x-r): dimension 1-4 x 6 matrices (one singular) x N in {0, square, sin} x c x root {0, (3,-2,..), (1e3,..)} x start {origin; r + d u for d in {0, 5e-3, 1e-2, 0.2} (below, at and above the finite-difference width), u over the axes and the diagonal} x tolerance x finite-difference width x iteration cap; signature = (method, outcome class, matrix kind, start class)".into()
+        "newton and secant on F(x) = A(x-r) + c N(x-r): dimension 1-4 x 6 matrices (one singular) x N in {0, square, sin} x c x root {0, (3,-2,..), (1e3,..)} x start {origin; r + d u for d in {0, 5e-3, 1e-2, 0.2} (below, at and above the finite-difference width), u over the axes and the diagonal; non-linear systems of dimension >= 2 also from a polar lattice r + rho (cos phi, sin phi) with rho in {0.1, 0.2, 0.3} and phi every 10 (quick) / 5 (thorough) degrees} x tolerance x finite-difference width x iteration cap; signature = (method, outcome class, matrix kind, start class)".into()
     }
     fn axes(&self, t: Tier) -> Value {
         json!({"matrices": MATS, "nonlinearity": NONLIN, "c": [0.0, 0.1], "tol": t.pick(vec![1e-3, 1e-10], vec![1e-3, 1e-6, 1e-10]), "h": t.pick(vec![1e-2, 1e-4], vec![1e-2, 1e-4, 1e-6]), "cap": [1, 2, 50], "dist": [0.0, 5e-3, 1e-2, 0.2]})
@@ -163,8 +171,18 @@ impl Check for Systems {
                                             if t == Tier::Quick && cap == 2 {
                                                 continue;
                                             }
-                                            v.push(SysPt { method: method.to_string(), dim, mat, nonlin, c, root, start_dir, dist, tol, h, cap });
+                                            v.push(SysPt { method: method.to_string(), dim, mat, nonlin, c, root, start_dir, dist, tol, h, cap, polar: None });
                                         }
+                                    }
+                                }
+                            }
+                            // polar lattice of starts around the root (non-linear systems, loose tolerance: the error
+                            // left by a premature stop is then far above the tolerance)
+                            if dim >= 2 && nonlin != 0 && mat != 5 {
+                                for &rho in &[0.1, 0.2, 0.3] {
+                                    for k in 0..t.pick(36, 72) {
+                                        let phi = k as f64 * t.pick(10.0, 5.0);
+                                        v.push(SysPt { method: method.to_string(), dim, mat, nonlin, c, root, start_dir: Some(0), dist: rho, tol: 1e-3, h: 1e-4, cap: 50, polar: Some((rho, phi)) });
                                     }
                                 }
                             }
@@ -233,7 +251,9 @@ impl Check for Systems {
                 } else {
                     let err = (0..d).map(|i| (x[i] - r[i]).abs()).fold(0.0, f64::max);
                     // conditioning floor: F is evaluated with rounding eps*|A|*|x|, which moves the root by that over sigma_min
-                    let bound = 8.0 * p.tol * rnorm.max(1.0) + 256.0 * EPS * anorm * (rnorm + 1.0) * 4.0;
+                    // (both methods stop on the size of their last update and converge superlinearly: the error left is far below
+                    // the tolerance - observed at most 0.02 tol - so the "small multiple" is 1)
+                    let bound = p.tol + 256.0 * EPS * anorm * (rnorm + 1.0) * 4.0;
                     o.metric(&format!("{}-error/bound", p.method), err / bound);
                     if !(err <= bound) {
                         o.viol(&subj, "returns-the-nearby-root", format!("{}: Ok({:?}) is {:e} from the root {:?} (bound {:e})", ctx(), x, err, r, bound));
